@@ -86,6 +86,53 @@ def h_sample_normal(P, box, unroll=2):
     P.oblige("sample_uniform.in_box", in_box(genome_list(u), bounds))
 
 
+def h_child_init(P, kind, unroll=2):
+    """The real constructor of a sprouted population deme (EADeme / DEDeme / SHADEDeme) with a symbolic seed anywhere in the box and
+    arbitrary normal draws: every point evaluated for the initial population, and every stored genome, is inside the box."""
+    from pyhms import config as C
+    from pyhms.core import problem as pp
+    from pyhms.core.individual import Individual
+    from pyhms.demes.abstract_deme import DemeInitArgs
+    from pyhms.demes.de_deme import DEDeme
+    from pyhms.demes.ea_deme import EADeme
+    from pyhms.demes.shade_deme import SHADEDeme
+    from pyhms.demes.single_pop_eas.sea import SEA
+    from pyhms.logging_ import get_logger
+    import pyhms.initializers as ini
+
+    bounds = np.array([[-1.0, 1.0], [-30.0, 30.0]])
+    F = P.uf("F", 2)
+    prob = pp.FunctionProblem(F, bounds, False)
+    g = P.floats("seed", (2,), finite=True)
+    P.assume(in_box(g, bounds))
+    seed = Individual(g, prob, F(g))
+    base = F.n_calls()
+    tries = [0]
+    orig = ini.nrand.multivariate_normal
+
+    def counted(*a, **k):
+        tries[0] += 1
+        if tries[0] > unroll + 1:
+            P.cut(f"rejection sampling unrolled {unroll}x per individual")
+        return orig(*a, **k)
+
+    P.env.patch(ini.nrand, "_ov", dict(ini.nrand._ov, multivariate_normal=counted))
+    if kind == "ea":
+        cfg, cls = C.EALevelConfig(ea_class=SEA, generations=1, problem=prob, pop_size=2, mutation_std=0.5, lsc=None, sample_std_dev=1.0), EADeme
+    elif kind == "de":
+        cfg, cls = C.DELevelConfig(generations=1, problem=prob, pop_size=2, lsc=None, sample_std_dev=1.0), DEDeme
+    else:
+        cfg, cls = C.SHADELevelConfig(generations=1, problem=prob, pop_size=2, lsc=None, memory_size=2, sample_std_dev=1.0), SHADEDeme
+    d = cls(DemeInitArgs(id="0", level=1, config=cfg, logger=get_logger(), started_at=1, sprout_seed=seed, random_seed=None, parent_deme=None))
+    _all_calls_in_box(P, F, bounds, f"child.{kind}.evaluated_point_in_box", since=base)
+    pop = d.current_population
+    P.oblige(f"child.{kind}.population_size", len(pop) == 2)
+    for x in pop:
+        P.oblige(f"child.{kind}.stored_genome_in_box", in_box(genome_list(x.genome), bounds))
+    from symx.core import same_bits as _sb
+    P.oblige(f"child.{kind}.seed_in_initial_population", lor(*[land(*[_sb(a, b) for a, b in zip(genome_list(x.genome), genome_list(g))]) for x in pop]))
+
+
 def h_pipeline(P, engine, n=2, d=1, box=(-1.0, 1.0)):
     """Composed engine step with the repair / crossover kernels replaced by their contracts: nothing downstream of a repair moves a
     point again, and every evaluation site receives repaired points only."""
@@ -208,6 +255,8 @@ def cases(tier):
             cs.append(dict(name=f"scale.{which}.box{box}", fn=h_scale, params=dict(which=which, box=list(box)), portfolio=True, oblig_timeout_s=300, cores=3, **R))
     cs.append(dict(name="sample_normal", fn=h_sample_normal, params=dict(box=[-0.1, 0.2]), oblig_timeout_s=60, **R))
     cs.append(dict(name="sample_normal.d2.unequal_ranges", fn=h_sample_normal, params=dict(box=[[-1.0, 1.0], [-30.0, 30.0]]), oblig_timeout_s=60, **R))
+    for k in ("ea", "de", "shade"):
+        cs.append(dict(name=f"child_init.{k}", fn=h_child_init, params=dict(kind=k), oblig_timeout_s=60, **R))
     for e in ("sea", "sea-xover", "ga", "sea-adaptive"):
         cs.append(dict(name=f"pipeline.{e}", fn=h_pipeline, params=dict(engine=e), oblig_timeout_s=60, abstract_mul=True, weight=5, **R))
     cs.append(dict(name="pipeline.de", fn=h_pipeline, params=dict(engine="de", n=4), oblig_timeout_s=60, abstract_mul=True, weight=30, **R))
